@@ -230,6 +230,8 @@ class Engine:
             for i, it in enumerate(sv.x):
                 arr = z3.Store(arr, i, to_val(it))
             return SV("list", arr, x=z3.IntVal(len(sv.x)))
+        if sv.k == "set" and z3.eq(z3.simplify(sv.t), z3.simplify(EmptySet)):
+            return SV("list", z3.K(Int, VNone), x=z3.IntVal(0))       # list(set()): the literally empty set
         raise Unsupported("as_list of %s" % sv.k)
 
     def truthy(self, sv, st):
@@ -269,6 +271,8 @@ class Engine:
             return sv.x > 0
         if k == "seq":
             return z3.Length(sv.t) > 0
+        if k == "nx_adj":
+            return self.schema.nx.adj_truthy(self, sv, st)
         if k == "dict":
             return sv.x[0] != EmptySet
         if k == "tuple":
@@ -794,6 +798,19 @@ class Engine:
             return [(st, None)]         # iteration over a literally empty collection: nothing to do
         if inv is not None:
             return self.exec_for_invariant(node, it, inv, st, ordinal)
+        if isinstance(node.iter, ast.Set) and 1 <= len(node.iter.elts) <= 2 and \
+                not any(isinstance(e_, ast.Starred) for e_ in node.iter.elts):
+            # a set display of one or two elements: one iteration if they are equal, otherwise two in either order
+            es = [self.eval(e_, st) for e_ in node.iter.elts]
+            if len(es) == 1:
+                return self.exec_for_unrolled(node, es, st)
+            same = to_val(es[0]) == to_val(es[1])
+            outs = []
+            for cond, order in ((same, [es[0]]), (z3.Not(same), [es[0], es[1]]), (z3.Not(same), [es[1], es[0]])):
+                s_ = st.fork()
+                s_.assume(cond)
+                outs += self.exec_for_unrolled(node, order, s_)
+            return outs
         elems = self._small_concrete(it, st)
         if elems is not None:
             return self.exec_for_unrolled(node, elems, st)
